@@ -1186,10 +1186,17 @@ class CircuitTemplate(AbstractBaseTemplate):
                         out_map[key][var_key] = self._get_var_idx(var_key)
                         out_vars[var_key] = backend_key
 
+                else:
+                    raise PyRatesException(f'Output variable {out} was not found: variable {out_var} does not exist on '
+                                           f'operator {out_op} of node {"/".join(out_nodes)}.')
+
         else:
 
             *out_nodes, out_op, out_var = outputs.split('/')
             target_nodes = self.get_nodes(out_nodes, var_identifier=(out_op, out_var))
+            if not target_nodes:
+                raise PyRatesException(f'Output variable {outputs} was not found: variable {out_var} does not exist on '
+                                       f'operator {out_op} of node {"/".join(out_nodes)}.')
 
             # extract index for single output node
             for t in target_nodes:
